@@ -155,6 +155,8 @@ Proof.
       apply stutter; rst; try reflexivity. intro s'. slot_cases s' s E; reflexivity.
     + destruct (is_nil (parked1 (slots st s))); [|discriminate]. apply some_inj in Hl. subst st'.
       apply stutter; rst; reflexivity.
+  - (* WNextBusy *)
+    destruct (wpc st); [|discriminate]. apply some_inj in Hl. subst st'. apply stutter; reflexivity.
 Qed.
 
 End Refine.
